@@ -85,7 +85,7 @@ theorem parseArguments_complete (fl : Flags) (fuel : Nat) (c : Bool) (as : List 
   apply optMany_complete fl _ .parenL .parenR argumentV (fun _ => True) fuel as l l' ts rest
   · exact Nat.le_trans (groupV_len argumentV_width h) hf
   · intro a ha l ts' l' rest hl hc _
-    exact parseArgument_complete fl fuel c a l l' ts' rest (w a ha) (Nat.le_trans hl hf) hc
+    exact parseArgument_complete fl fuel c a l l' ts' rest (w a ha) (Nat.le_trans (Nat.le_of_lt hl) hf) hc
   · intro a _ l ts r hc
     rcases r with ⟨l', rest⟩
     simp only [argumentV, check_node, checkAll_cons] at hc
